@@ -138,13 +138,18 @@ class Hist:
         P = s.P
         A = st.aux
         if kind == 'key':
-            if op == 'insert':
+            if op in ('insert', 'insert_asc'):
                 t = s.time_arg(eng, st)
                 if t is None:
                     return None
                 k = s.sym(st, 'k', KW); x = s.sym(st, 'x', EW); v = s.sym(st, 'v', VW)
                 found, _ = ref.lookup(k, t)
-                if not s.assume(eng, st, z3.And(z3.UGE(x, t), z3.Not(found))):
+                pre = z3.And(z3.UGE(x, t), z3.Not(found))
+                if op == 'insert_asc':
+                    pre = z3.And(pre, z3.UGT(x, t))
+                    if ref.e:
+                        pre = z3.And(pre, z3.UGT(k, ref.e[-1]['k']), z3.UGT(ref.e[-1]['x'], t))
+                if not s.assume(eng, st, pre):
                     return None
                 A['cur'] = {'t': t, 'k': k, 'x': x, 'v': v}
                 return entry(P, s.mod, 'insert', 4), [TREE, [k, x], v, t]
@@ -175,10 +180,13 @@ class Hist:
                 tree = st.heap.pop('tree')
                 return entry(P, 'key::array', 'into_ordered_vec', 2, 'KeyExpTree'), [tree, t]
         else:
-            if op == 'insert':
+            if op in ('insert', 'insert_asc'):
                 k = s.sym(st, 'k', KW); v = s.sym(st, 'v', VW)
                 found, _ = ref.lookup(k)
-                if not s.assume(eng, st, z3.Not(found)):
+                pre = z3.Not(found)
+                if op == 'insert_asc' and ref.e:
+                    pre = z3.And(pre, z3.UGT(k, ref.e[-1]['k']))
+                if not s.assume(eng, st, pre):
                     return None
                 A['cur'] = {'k': k, 'v': v}
                 if kind == 'map':
@@ -220,7 +228,7 @@ class Hist:
         pid = {'map': 'C04', 'set': 'C05', 'key': 'C01'}[kind]
         if kind == 'key':
             t = cur.get('t')
-            if op == 'insert':
+            if op in ('insert', 'insert_asc'):
                 A['ref'] = ref.with_entry(cur['k'], cur['x'], cur['v'])
             elif op in ('first_less', 'first_less_or_equal', 'first_less_or_equal_by'):
                 if op == 'first_less':
@@ -268,7 +276,7 @@ class Hist:
                 pass
             return None
         # ---- map / set
-        if op == 'insert':
+        if op in ('insert', 'insert_asc'):
             A['ref'] = ref.with_entry(cur['k'], None, cur['v'])
         elif op == 'delete':
             A['ref'] = ref.without_key(cur['k'])
@@ -374,6 +382,7 @@ class Hist:
         A = st.aux
         if A['pos'] < 0:
             st.heap['tree'] = st.result
+            s.structure(eng, st)          # base case: the freshly constructed tree satisfies the invariant
             nxt = None
         else:
             op = s.template[A['pos']]
@@ -443,7 +452,7 @@ class Hist:
         for i, op in enumerate(s.template[:upto + 1]):
             if i > st.aux['pos']:
                 break
-            ops.append(dict(op=op, **byop.get(i, {})))
+            ops.append(dict(op='insert' if op == 'insert_asc' else op, **byop.get(i, {})))
         return {'kind': s.kind, 'capacity': s.capacity, 'ops': ops}
 
     def run(s):
